@@ -135,11 +135,31 @@ def entries(data, path, report):
         "trace": traced,
         "check": lambda: an.check_safety(fk.Pickled.load(data)),
         "check_json": lambda: an.check_safety(fk.Pickled.load(data), json_output_path=report),
+        "check_each": lambda: check_each(data),
+        "check_ml": lambda: check_ml(data),
         "likely_safe": lambda: an.is_likely_safe(path),
         "cli_decompile": lambda: cli(path),
         "cli_trace": lambda: cli("--trace", path),
         "cli_check": lambda: cli("--check-safety", "--json-output", report, path),
     }
+
+
+def check_each(data):
+    """every registered analysis on its own (the first failure is re-raised after all of them ran)"""
+    first = None
+    for cls in list(dict.fromkeys(type(a) for a in an.Analysis.ALL)):
+        try:
+            an.check_safety(fk.Pickled.load(data), analyzer=an.Analyzer([cls()]))
+        except BaseException as e:  # noqa: BLE001
+            first = first or e
+    if first is not None:
+        raise first
+
+
+def check_ml(data):
+    import fickling.ml as ml
+    recipe = [c() for c in (getattr(ml, "MLAllowlist", None), getattr(an, "UnsafeImportsML", None), getattr(an, "BadCalls", None)) if c]
+    return an.check_safety(fk.Pickled.load(data), analyzer=an.Analyzer(recipe))
 
 
 def listing(d):
@@ -181,6 +201,9 @@ def run_input(it, idx, scratch, out):
 
 
 def main():
+    extra = json.load(open(sys.argv[1])).get("extra_path")
+    if extra:
+        sys.path.insert(0, extra)
     spec = json.load(open(sys.argv[1]))
     scratch = spec["scratch"]
     os.makedirs(scratch, exist_ok=True)
